@@ -13,7 +13,7 @@ NOT_DECIDED = {
     "C03": ["the ordinary assignment path (write_lvalue stores the evaluated value as-is: an INT variable can hold a DInt)", "parameter passing", "debugger writes", "restart", "REAL and STRING/CHAR coercions"],
     "C04": ["value contracts of the exec_ton/tof/tp glue beyond frame + step (their step functions are proved separately)", "PT changing during a trace in the trace lemmas"],
     "C06": ["the loop shell of collect_ready_tasks (look-ups feeding the decision slice)", "std sort_by_key", "background programs (set difference over IndexMap)"],
-    "C07": ["binding application over storage (read_inputs/write_outputs bodies)", "driver loops inside read_cycle_inputs/write_cycle_outputs", "latching as seen by program reads", "images longer than the stated bounds"],
+    "C07": ["binding application over storage (read_inputs body; values written by write_outputs)", "driver loops inside read_cycle_inputs/write_cycle_outputs", "latching as seen by program reads", "images longer than the stated bounds"],
     "C08": ["every place a fault can surface inside tasks", "a safe-state entry the interface refuses stops IoSafeState::apply before the drivers are written (configuration error path)"],
     "C09": ["observational equivalence with a fresh runtime", "instance-id bindings across restart", "program-level retain in retain_snapshot", "the save/load power cycle beyond the scalar codec and save_snapshot"],
     "C10": ["crash atomicity of the file store (not decidable by contracts)", "decode of arbitrary tags, arrays, structs, whole snapshots"],
